@@ -36,10 +36,14 @@ VALUES = ["5", "-5", "+7", " 8 ", "007", "0", "yes", "no", "true", "false", "Yes
 DEFAULTS = {"verbose": "info", "clean_logs": True, "use_spec_hashes": False}
 
 
+QUICK_BUDGET = {"cases": 800, "deadline_s": 100, "case_timeout_s": 120, "floors": {"config_commands": 1400, "file_comparisons": 1400, "backend_selections": 90, "verbosity_cases": 60, "colour_cases": 60, "settings_cases": 60}}
+THOROUGH_FACTOR = 10  # thorough = the same workload with 10x the cases (floors scale along)
+
+
 def budget(tier):
-    if tier == "thorough":
-        return {"cases": 4000, "deadline_s": 800, "case_timeout_s": 180, "floors": {"config_commands": 18000, "file_comparisons": 18000, "backend_selections": 1200, "verbosity_cases": 800, "colour_cases": 800, "settings_cases": 800}}
-    return {"cases": 800, "deadline_s": 100, "case_timeout_s": 120, "floors": {"config_commands": 1400, "file_comparisons": 1400, "backend_selections": 90, "verbosity_cases": 60, "colour_cases": 60, "settings_cases": 60}}
+    from ..core import scaled_budget
+
+    return scaled_budget(QUICK_BUDGET, tier, THOROUGH_FACTOR, noscale=())
 
 
 def gen_case(rng, idx, tier):
